@@ -108,10 +108,12 @@ def main():
                             rows_.append({"ref": nm, "market": mid, "bet": bets[nm], "status": "EXECUTION_COMPLETE" if done else "EXECUTABLE",
                                           "matched": 500 if done else rng.choice([0, 200]), "remaining": 0 if done else 300})
                     elif q < 0.9:
-                        rows_.append({"ref": ["foreign", rng.randrange(2), str(139000000000000000 + rng.randrange(50))], "market": rng.choice(mids), "bet": "F%d" % rng.randrange(50),
-                                      "status": rng.choice(["EXECUTABLE", "EXECUTION_COMPLETE"]), "matched": 0, "remaining": 400, "sel": rng.choice([101, 202])})
+                        fid = rng.randrange(50)     # one bet id per foreign order: an exchange never files two orders under one bet id
+                        rows_.append({"ref": ["foreign", fid % 2, str(139000000000000000 + fid)], "market": mids[fid % len(mids)], "bet": "F%d" % fid,
+                                      "status": rng.choice(["EXECUTABLE", "EXECUTION_COMPLETE"]), "matched": 0, "remaining": 400, "sel": [101, 202][fid % 2]})
                     else:
-                        rows_.append({"ref": ["foreign", "unknown-strategy", str(139000000000000900 + rng.randrange(50))], "market": rng.choice(mids), "bet": "U%d" % rng.randrange(50),
+                        uid = rng.randrange(50)
+                        rows_.append({"ref": ["foreign", "unknown-strategy", str(139000000000000900 + uid)], "market": mids[uid % len(mids)], "bet": "U%d" % uid,
                                       "status": "EXECUTABLE", "matched": 0, "remaining": 400})
                 if rows_:
                     steps.append(["stream", rows_])
